@@ -28,8 +28,9 @@ def _promoted_chars(ctx, path):
 def components(ctx, rule):
     b = ctx.body(MRP)
     fn = b.path
-    tp = [l for l in sorted(b.var_names) if b.var_names[l] == "target_path"]
-    bp = [l for l in sorted(b.var_names) if b.var_names[l] == "base_path"]
+    SPL0 = "Iterator::collect(Iterator::filter(str::split(%s,utils::make_relative_path[RangeFull{}]),closure:make_relative_path::{closure#"
+    tp = [l for l in sorted(b.var_names) if any(sh.startswith(SPL0 % "arg2") for sh, _, _ in q.def_shapes(b, l, {}))]
+    bp = [l for l in sorted(b.var_names) if any(sh.startswith(SPL0 % "arg1") for sh, _, _ in q.def_shapes(b, l, {}))]
     if not ctx.check(len(tp) == 1 and len(bp) == 1, rule, fn, "roles", "target and base component lists are recognisable"):
         return None
     roles = {tp[0]: "target_path", bp[0]: "base_path"}
@@ -57,7 +58,7 @@ def same_prefix(ctx, rule):
     roles = components(ctx, rule)
     if roles is None:
         return
-    pfx = [l for l in sorted(b.var_names) if b.var_names[l] == "prefix"]
+    pfx = [l for l in sorted(b.var_names) if any(sh.startswith("Option::unwrap_or(Option::map(utils::find_common_prefix_of_sorted_vec(") for sh, _, _ in q.def_shapes(b, l, {}))]
     if not ctx.check(len(pfx) == 1, rule, fn, "prefix", "one common-prefix length"):
         return
     d = [sh for sh, _, _ in q.def_shapes(b, pfx[0], roles)]
